@@ -4,7 +4,9 @@ go 1.23.0
 
 require (
 	github.com/go-critic/go-critic v0.0.0
+	github.com/go-toolsmith/astequal v1.2.0
 	github.com/go-toolsmith/pkgload v1.2.2
+	github.com/go-toolsmith/strparse v1.1.0
 	github.com/go-toolsmith/typep v1.1.0
 	github.com/quasilyte/go-ruleguard v0.4.4
 	github.com/quasilyte/regex/syntax v0.0.0-20210819130434-b3f0c404a727
@@ -14,10 +16,8 @@ require (
 require (
 	github.com/go-toolsmith/astcast v1.1.0 // indirect
 	github.com/go-toolsmith/astcopy v1.1.0 // indirect
-	github.com/go-toolsmith/astequal v1.2.0 // indirect
 	github.com/go-toolsmith/astfmt v1.1.0 // indirect
 	github.com/go-toolsmith/astp v1.1.0 // indirect
-	github.com/go-toolsmith/strparse v1.1.0 // indirect
 	github.com/google/go-cmp v0.7.0 // indirect
 	github.com/quasilyte/go-ruleguard/dsl v0.3.22 // indirect
 	github.com/quasilyte/gogrep v0.5.0 // indirect
